@@ -66,7 +66,9 @@ class MeshTet1(MeshSimplex, Mesh3D):
                 ix = np.arange(nelems, dtype=np.int32)
 
             X = mapping.invF(np.array([x, y, z])[:, None], ix)
-            eps = np.finfo(X.dtype).eps
+            # tolerance for the rounding errors of invF: points on the
+            # boundary of the mesh belong to the mesh
+            eps = 1e4 * np.finfo(X.dtype).eps
             inside = ((X[0] >= -eps) *
                       (X[1] >= -eps) *
                       (X[2] >= -eps) *
